@@ -291,6 +291,18 @@ def run(pid, tier, args):
                         v.violation("%s lexer for %s on a long input %s: %s" % (mk, q[1], q[2][:120], q[3][-200:]), {"property": pid, "kind": "lex-long", "maker": mk, "alpha": alpha, "case": ids[q[1]], "input_quoted": q[2], "real": q[3]})
                     elif q[0] == "DONE":
                         v.validated(int(q[1]))
+        if pid == "C07" and not args.replay:
+            # many states entered one inside the other and left by a single call of Next (Return after Return): no stack growth
+            import subprocess
+            nret = 200000 if tier == "quick" else 1000000
+            pr = subprocess.run([vhbin, "deep-run", "lexreturn", "flat", str(nret), str(8 << 20)], stdout=subprocess.PIPE, stderr=subprocess.PIPE, timeout=600)
+            o = pr.stdout.decode("utf8", "replace").strip()
+            if pr.returncode != 0 or not o:
+                v.violation("a lexer that leaves %d nested states in one call of Next dies under an 8 MiB stack limit (%s)" % (nret, pr.stderr.decode("utf8", "replace")[:200].replace("\n", " ")),
+                            {"property": pid, "kind": "lex-return-depth", "n": nret})
+            elif o.split("\t")[3] != "ok":
+                v.violation("a lexer that leaves %d nested states in one call of Next: %s" % (nret, o.split("\t")[3][:200]), {"property": pid, "kind": "lex-return-depth", "n": nret, "real": o})
+            v.validated(1)
         if pid == "C03":
             # B2: realistic stateful lexers (patterns beyond Regex.tla): the regexp outcomes are an oracle table recorded from the
             # standard library; rule choice, stack moves, groups, elision, positions and errors are decided by StatefulLexer!Call
